@@ -37,6 +37,7 @@ func readPanicFree(filename string) (f *fs.File, err error) {
 			err = fmt.Errorf("%s", r)
 		}
 	}()
+	verifFileAccess("read-root", filename)
 	f = reader.Read(filename)
 	return f, err
 }
